@@ -1454,6 +1454,9 @@ def _op_zoomify(self, op):
             cc.pixels = cc.pixels[["bin1_id", "bin2_id"] + columns]
             exp, ok = coarsen_model(cc, r // b, columns, op.get("agg") or {})
             overflow = overflow or not ok
+            # a level inherits the value dtype of the base its chain started from: any base that
+            # divides r is acceptable (the values are the same whatever the chain)
+            exp.dtype_alternatives = {col: {str(c2.pixels[col].dtype) for b2, c2 in cand} for col in columns}
             resgrp.children[str(r)] = ("h", self._fresh(exp, "C09"))
     fs_ok.files[fid] = root
     uris = [uri_of(b["path"], self.fpath(b["file"])) for b in op["bases"]]
